@@ -41,7 +41,9 @@ META = dict(
 DT = [torch.float32, torch.float16, torch.bfloat16]
 # every template: most arithmetic returns float tensors (the history then stops), but whatever comes back quantized - also
 # from an operation that should not have produced a quantized tensor - is checked
-HIST_OPS = sorted(set(programs.TEMPLATES) - {"conv2d", "bmm", "matmul", "linear", "linear_rev", "cross_entropy"}) + \
+# contractions and the pass-through pools return plain tensors, which end a history: they are C05's business
+HIST_OPS = sorted(set(programs.TEMPLATES) - {"conv2d", "bmm", "matmul", "linear", "linear_rev", "cross_entropy", "pool_pass",
+                                             "pool_contract", "linear_reused_weight", "mm_int_route"}) + \
     sorted(programs.SHAPE_OPS | programs.MOVE_OPS)  # shape ops and moves twice as likely
 
 
@@ -140,6 +142,33 @@ def run(ctx):
     n_hist = (1500 if ctx.tier == "quick" else 40_000) // ctx.nshards
     mon = dispatchmon.Monitor(ctx, judge_c05=False, judge_c06=True)
     with mon, torch.no_grad():
+        # directed: every kind of scalar operand (python numbers, 0-dim and one-element tensors of several dtypes) against
+        # per-tensor and per-axis tensors of ranks 1-3: whatever comes back quantized is judged at dispatch
+        k = 0
+        for kind in ("act8", "acte4", "w8a0", "w8a-1", "wf8a0"):
+            for shape in ((4,), (3, 5), (2, 3, 4)):
+                if kind.startswith("w") and len(shape) < 2:
+                    continue
+                for sk in range(programs.N_SCALAR_KINDS):
+                    for opn in ("mul", "rmul", "div", "torch.mul", "torch.div"):
+                        k += 1
+                        if not ctx.mine(k):
+                            continue
+                        wd = DT[k % 3]
+                        if not ctx.case(dict(directed="scalar_" + opn, kind=kind, shape=list(shape), scalar_kind=sk, dtype=str(wd))):
+                            continue
+                        r_ = ctx.crng
+                        pool = programs.Pool(oq, r_, wd)
+                        a0, _ = pool.fresh(shape, kind)
+                        s0 = programs.scalar(r_, sk)
+                        try:
+                            out = {"mul": lambda: a0 * s0, "rmul": lambda: s0 * a0, "div": lambda: a0 / s0,
+                                   "torch.mul": lambda: torch.mul(a0, s0), "torch.div": lambda: torch.div(a0, s0)}[opn]()
+                            if isinstance(out, torch.Tensor) and dispatchmon.is_q(out):
+                                direct_check(ctx, out, "scalar_" + opn)
+                        except Exception:
+                            ctx.count("steps_raised")
+                        ctx.count("directed_scalar_programs")
         for i in range(n_hist):
             wd = DT[int(rng.integers(3))]
             length = int(rng.integers(1, 11))
